@@ -360,6 +360,8 @@ func runC20(c *Ctx) {
 	}
 	nSinks := 0
 	usedInline := map[*ssa.Call]*ssa.Function{} // in-place containment tests that discharged a sink
+	env := &r1Env{c: c, derives: derives, isContainment: isContainment, inPkg: inPkg, sums: map[*ssa.Function]*ctorSum{},
+		predOK: func(f *ssa.Function) (bool, string) { return preds[f].ok, preds[f].detail }}
 	for _, fn := range fns {
 		src := map[ssa.Value]bool{}
 		ir.Instrs(fn, func(in ssa.Instruction) {
@@ -413,8 +415,9 @@ func runC20(c *Ctx) {
 					// result may travel through a boolean variable, the tested name through a result variable of an
 					// inlined helper), and it may be spelled out in place (filepath.Rel + the ".." tests)
 					ev := c.containmentEvidence(fn, t, isContainment)
+					ctors := env.ctorCalls(fn, 0)
 					sinkCall, sinkArg := call, a
-					tmpUsed := map[*ssa.Call]bool{}
+					tmpUsed := map[*ssa.Call]*ssa.Function{}
 					q := ir.PathQuery{Fn: fn, Target: func(in ssa.Instruction, val *ir.Valuation) bool {
 						if in != sinkCall.(ssa.Instruction) {
 							return false
@@ -423,32 +426,7 @@ func runC20(c *Ctx) {
 						if !t[ra] {
 							return false // on this path the argument is not built from an entry name (e.g. the "" of an error return)
 						}
-						for _, gc := range ev.calls {
-							if k, ok := val.Known(gc.call); !ok || !k {
-								continue
-							}
-							cov := false
-							for _, ga := range gc.call.Call.Args {
-								if t[ga] && coversOn(val, ra, ga) {
-									cov = true
-								}
-							}
-							if !cov {
-								continue
-							}
-							if gc.pred != nil && !preds[gc.pred].ok {
-								weak = preds[gc.pred].detail
-								continue
-							}
-							return false
-						}
-						for _, rt := range ev.inline {
-							if coversOn(val, ra, rt.target) && rt.holds(val) {
-								tmpUsed[rt.rel] = true
-								return false
-							}
-						}
-						return true
+						return !env.guardedOn(fn, t, ev, ctors, val, ra, tmpUsed, &weak)
 					}}
 					w, err := q.Find()
 					switch {
@@ -457,8 +435,8 @@ func runC20(c *Ctx) {
 						continue
 					case w == nil:
 						guarded = true
-						for rc := range tmpUsed {
-							usedInline[rc] = fn
+						for rc, where := range tmpUsed {
+							usedInline[rc] = where
 						}
 					}
 				}
@@ -708,7 +686,7 @@ func (c *Ctx) zipSelection(fns []*ssa.Function, rule, rule6 string) {
 				continue
 			}
 			for _, kind := range []int{selFilter, selFlag} {
-				if (kind == selFilter && len(r.filters) == 0) || (kind == selFlag && len(r.flags) == 0) {
+				if !z.hasKind(r, kind) {
 					continue
 				}
 				kind, cr := kind, cr
@@ -716,7 +694,7 @@ func (c *Ctx) zipSelection(fns []*ssa.Function, rule, rule6 string) {
 					if in != ssa.Instruction(cr) {
 						return false
 					}
-					return !z.decidedOn(r, val, kind, 0)
+					return !z.decidedOn(r, val, kind, 0, in)
 				}}
 				if kind == selFilter {
 					c.pathVerdict(rule, fn, "archived only if the filter is nil or accepted the path", cr, q,
@@ -832,6 +810,9 @@ type selRoles struct {
 	nilTests    map[*selInput][]*ssa.BinOp
 	dirTests    []ssa.Value
 	helpers     []*selHelper
+	// fixed tables of predicates evaluated by a loop over all of their elements (filled by topRoles / visit)
+	tables     []*selTable
+	tablesDone bool
 }
 
 // selHelper is a call of a repository function that is handed the walked path.
@@ -968,7 +949,7 @@ func (z *zipSel) topRoles(fn *ssa.Function) *selRoles {
 		}
 		classify(r, &selInput{param: p, typ: p.Type(), reads: map[ssa.Value]bool{p: true}})
 	}
-	if len(r.filters) == 0 && len(r.flags) == 0 {
+	if len(r.filters) == 0 && len(r.flags) == 0 && !z.tableHasInputs(r) {
 		return nil
 	}
 	return r
@@ -1141,6 +1122,12 @@ func (z *zipSel) visit(r *selRoles, depth int) *selRoles {
 	})
 	z.prefixUses(r)
 	if depth < 3 {
+		for _, tb := range z.tablesOf(r) {
+			for i, er := range tb.elems {
+				z.c.Saw(er.fn)
+				tb.elems[i] = z.visit(er, depth+1)
+			}
+		}
 		for _, hc := range helperCalls {
 			if hr := z.calleeRoles(r, hc); hr != nil {
 				z.c.Saw(hr.fn)
@@ -1152,7 +1139,7 @@ func (z *zipSel) visit(r *selRoles, depth int) *selRoles {
 }
 
 // decidedOn: has the path (valuation val, in function r.fn) decided the selection input of the given kind?
-func (z *zipSel) decidedOn(r *selRoles, val *ir.Valuation, kind int, depth int) bool {
+func (z *zipSel) decidedOn(r *selRoles, val *ir.Valuation, kind int, depth int, at ssa.Instruction) bool {
 	inputs := r.filters
 	if kind == selFlag {
 		inputs = r.flags
@@ -1167,6 +1154,10 @@ func (z *zipSel) decidedOn(r *selRoles, val *ir.Valuation, kind int, depth int) 
 				return true
 			}
 		}
+	}
+	// a fixed table of predicates all of which were called on the walked path and returned the same result before `at`
+	if depth < 3 && z.tablesDecide(r, kind, depth, at) {
+		return true
 	}
 	if kind == selFlag {
 		// the comparison of the file's directory with the source directory decided "same directory"
@@ -1245,7 +1236,7 @@ func (z *zipSel) summary(h *selRoles, truth bool, kind int, depth int) bool {
 			if k, known := val.Known(ret.Results[0]); known && k != truth {
 				return false
 			}
-			return !z.decidedOn(h, val.Assume(ret.Results[0], truth), kind, depth)
+			return !z.decidedOn(h, val.Assume(ret.Results[0], truth), kind, depth, in)
 		}}
 		w, err := q.Find()
 		res = err == nil && w == nil
@@ -1421,7 +1412,19 @@ func (z *zipSel) cleanedValue(g *ssa.Function, v ssa.Value, depth int) bool {
 // cleanedCell: the captured variable fv of closure fn holds, when the closure is made, a value whose derivation
 // contains a path-cleaning call.
 func (c *Ctx) cleanedCell(fn *ssa.Function, fv *ssa.FreeVar) bool {
-	cell, ok := ir.BindingOf(fv).(*ssa.Alloc)
+	// a closure nested in closures sees the variable through the captured variables of the enclosing closures: the
+	// cell is the variable of the outermost function, the site the creation of the outermost closure of the chain
+	// (every closure inside is made, and runs, after that one was made)
+	b := ir.BindingOf(fv)
+	for i := 0; i < 4; i++ {
+		pfv, nested := b.(*ssa.FreeVar)
+		if !nested {
+			break
+		}
+		fn = pfv.Parent()
+		b = ir.BindingOf(pfv)
+	}
+	cell, ok := b.(*ssa.Alloc)
 	if !ok {
 		return false
 	}
